@@ -35,15 +35,20 @@ Definition subject_of (g : store) (typ : ttype) (t : tokstr) : string :=
   | _, _ => ""
   end.
 
-Definition issuable (req : ttype) : bool :=
-  match req with TAbsent | TAccess | TRefresh | TId => true | _ => false end.
+(* can the provider issue a token of the type the request ends up asking for (after the storage
+   policy had its say)?  An absent type that nobody fills in is not issuable. *)
+Definition issuable (pol : tepolicy) (req : ttype) : bool :=
+  match req with
+  | TUnknown => false       (* a type the library does not know is refused before the storage is asked *)
+  | _ => match effective_type pol req with TAccess | TRefresh | TId => true | _ => false end
+  end.
 
 (* the record the storage policy (refstore) decides for the new token *)
 Definition decided (cl : list client) (g : store) (c : cred) (subj : tokstr) (styp : ttype)
     (actor : option (tokstr * ttype)) (scopes aud : list string) : trec :=
-  TRec (cred_id c) (subject_of g styp subj)
+  TRec (cred_id c) (decided_subject (policy g) (subject_of g styp subj))
        (match actor with Some (ta, atyp) => subject_of g atyp ta | None => "" end)
-       (drop_scopes scopes) aud (expired_of cl (cred_id c)).
+       (decided_scopes (policy g) scopes) aud (expired_of cl (cred_id c)).
 
 (* issued_token_type names what the response holds, and that token is stored as decided *)
 Definition contained (want : trec) (issued : ttype) (access : xtok) (rt : sid) (rt_live : bool)
@@ -76,7 +81,7 @@ Definition promised (cl : list client) (g : store) (c : cred) (subj : tokstr) (s
          end
   | _ => false
   end
-  && subj_live g styp subj && actor_live g actor && issuable req && negb (string_in "veto" scopes).
+  && subj_live g styp subj && actor_live g actor && issuable (policy g) req && negb (string_in "veto" scopes).
 
 Definition is_error (st : status) : bool :=
   match st with S400 | S401 | S403 | S500 => true | _ => false end.
@@ -86,8 +91,8 @@ Definition check (cl : list client) (g : store) (o : op) (x : out) : bool :=
   | _, OPanic => false
   | Exchange _ c subj styp actor req scopes aud, OExch issued access rt rt_live sc stored =>
       client_ok cl c && subj_live g styp subj && actor_live g actor
-      && issuable req && negb (string_in "veto" scopes)
-      && strs_eqb sc (drop_scopes scopes)
+      && issuable (policy g) req && negb (string_in "veto" scopes)
+      && strs_eqb sc (decided_scopes (policy g) scopes)
       && contained (decided cl g c subj styp actor scopes aud) issued access rt rt_live stored
   | Exchange _ c subj styp actor req scopes _, OErr st oauth =>
       is_error st && oauth && negb (promised cl g c subj styp actor req scopes)
@@ -103,7 +108,7 @@ Fixpoint spec_run (cl : list client) (g : store) (ops : list op) (xs : list out)
   end.
 
 Definition spec (i : input) (o : observed) : bool :=
-  match i with Hist cl ops => spec_run cl (Store [] []) (located ops) o end.
+  match i with Hist cl pol ops => spec_run cl (Store [] [] pol) (located ops) o end.
 
 Definition obs_eqb (a b : observed) : bool := list_eqb out_eqb a b.
 
